@@ -144,13 +144,15 @@ CLAIMED = {
         "Identity, Product, Sum, Diagonal, Transpose, Adjoint, Permutation, generic operators, TriangularInv, LSTSQSolve, IterativeOperatorWInfo and to_dense "
         "of Kronecker/KronSum/BlockDiag run as real code over abstract parts and must equal M(self) X / M(self) with the shape and promoted dtype of the dense "
         "computation (ALG, all shapes); Tridiagonal, Concatenated on both axes, Permutation and Householder are verified entry by entry for all sizes (IDX); "
+        "the reshape / moveaxis kernels Kronecker._matmat, KronSum._matmat, BlockDiag._matmat run as real code over FORMAL dimensions (multi-index domain, DESIGN 18.1) "
+        "and equal M(self) X entry by entry for all factor shapes, column counts and multiplicities (number of direct factors enumerated: 2..3 / 2..4); "
         "every rule of the combinators keeps M(r) (any nesting depth = one contract use per node).",
-   design_ref="4.1",
-   note="The reshape/moveaxis kernels of Kronecker, KronSum, BlockDiag and the blocked Kernel operator are covered only by a bounded stand-in (real code on "
-        "exact symbolic payloads, all shapes up to dims<=2/3, <=3 factors, multiplicities<=3), labelled bounded and not counted as proved; Jacobian/Hessian/"
+   design_ref="4.1, 18.1",
+   note="The blocked Kernel operator is covered only by a bounded stand-in (real code on exact symbolic payloads); the same stand-in is kept for the tensor kernels as the "
+        "fall-back that still decides when the multi-index domain answers unsupported (a reshape that is not a regrouping); labelled bounded and not counted as proved; Jacobian/Hessian/"
         "FFT/Sparse reduce to backend primitives absent on NumPy (out of scope); exact arithmetic; the Identity/Permutation dtype clause is a listed known finding.",
-   technique="contract-stubbed proxy execution of kernel methods (ALG + index domain); bounded symbolic execution of the real code as stand-in for tensor kernels",
-   engine="ALG+IDX"),
+   technique="contract-stubbed proxy execution of kernel methods (ALG + index domain + multi-index domain over formal dimensions); bounded symbolic execution of the real code as fall-back for tensor kernels and for Kernel",
+   engine="ALG+IDX+TIDX"),
  "C18": dict(
    category="proof",
    text="Frame obligations for every in-place construct found in the real source of all cola modules (augmented assignments, subscript stores, "
@@ -290,6 +292,7 @@ for p in props:
         na.append({"property_id": p["id"], "reason": NA_REASON.get(p["id"], NOT_YET)})
 engines = [
  {"name": "TAB", "path": "vcgen/tab.py", "serves_properties": ["C04", "C19"], "kind_free_text": "dispatch table as finite relational structure; exhaustive decision, validated against the live plum resolver"},
+ {"name": "TIDX", "path": "vcgen/tidx.py", "serves_properties": ["C01"], "kind_free_text": "multi-index domain: arrays over formal dimensions (sums of ordered products of dimension atoms); row-major reshape as regrouping, axis permutations, segment slices, concat; values as normal forms of finite sums of products; real reshape / moveaxis kernels executed over abstract factors"},
  {"name": "ALG", "path": "vcgen/alg.py", "serves_properties": [], "kind_free_text": "contract-stubbed proxy execution of the real rule function objects; abstract linear algebra over C in z3 (quantified lemma axioms), cvc5 cross-check"},
 ]
 m = {
